@@ -157,8 +157,7 @@ type World struct {
 	nestedShutdown   int  // Shutdown actions returned by an OnClose that ran nested inside a handler call
 	cbAfterReturn    int
 	openedN, closedN int
-	countLo, countHi int
-	countWatch       bool
+	countWatchers    []*countWatch
 	postRounds       int
 	shutdownIdle     int
 	tickCount        int
@@ -219,6 +218,7 @@ func (w *World) outcome() runner.Outcome {
 		o.Steps = w.s.Step()
 		o.SimNanos = w.simNanos
 		o.Signature = w.s.Signature()
+		o.Decisions = w.s.Recorded
 	}
 	if v := w.viol[w.prop]; v != nil {
 		o.Violation = v
@@ -325,13 +325,14 @@ func (w *World) protoAddr() (string, string) {
 
 func (w *World) run() {
 	p := w.p
-	cfg := vsched.Config{Seed: p.Seed, Strategy: p.Cfg.Strategy, Quantum: p.Cfg.Quantum, PCTDepth: p.Cfg.PCTDepth, MaxSteps: p.Cfg.MaxSteps, OffSites: p.Cfg.OffSites}
+	cfg := vsched.Config{Seed: p.Seed, Strategy: p.Cfg.Strategy, Quantum: p.Cfg.Quantum, PCTDepth: p.Cfg.PCTDepth, MaxSteps: p.Cfg.MaxSteps, OffSites: p.Cfg.OffSites, Decisions: p.Sched}
 	if cfg.MaxSteps <= 0 {
 		cfg.MaxSteps = 60000
 	}
 	w.probes["global-resets"] = vsched.ResetGlobals()
 	s := vsched.New(cfg)
 	defer s.Close()
+	s.Record = true
 	w.s = s
 	k := vsys.New(p.Seed, s.Step, vsched.CurrentName)
 	defer k.Deactivate()
@@ -439,8 +440,9 @@ func (w *World) events() []vsched.Event {
 		if !sk.Harness && sk.Deliverable() {
 			evs = append(evs, vsched.Event{Name: fmt.Sprintf("net%03d", sk.ID), Run: func() {
 				n := 1
-				if w.k.Rand().Chance(1, 3) {
-					n = w.k.Rand().Range(1, sk.WireLen())
+				key := fmt.Sprintf("deliver:%d", sk.ID)
+				if w.k.Draw(key, 3) == 0 {
+					n = 1 + w.k.Draw(key+"n", sk.WireLen())
 				}
 				sk.Deliver(n)
 				if cs := w.connOfSock(sk); cs != nil && (sk.PeerSawFinOrErr()) {
@@ -455,7 +457,7 @@ func (w *World) events() []vsched.Event {
 	evs = append(evs, w.udpEvents()...)
 	for _, fd := range w.k.Canaries() {
 		fd := fd
-		if w.k.Rand().Chance(1, 8) {
+		if w.s.Step()%8 == fd%8 {
 			evs = append(evs, vsched.Event{Name: fmt.Sprintf("canary%d", fd), Run: func() { w.k.ReleaseCanary(fd) }})
 		}
 	}
